@@ -227,3 +227,17 @@ reg("C06",
          "a product. psi is validated by C04/C05. png tiles are 8-bit RGB: the psi comparison allows one level, the comparison with the sampler at the real coordinates is exact.",
     technique="TLA+/TLC model checking of the sampling machine on the lattice + TLC-emitted files validating the closed form that drives pixel-exact comparison of real sampled tiles",
     design_ref="DESIGN.md 5/C06, 4.4")
+
+reg("C07",
+    text="The compiled lat/lon box test is transcribed in spec/BBoxFilter.tla and TLC checks NoFalseNegative (and exactness away from poles, sorting/unwrap correctness) over every "
+         "corner/box configuration on a pi/G grid; every grid verdict is replayed into the compiled function and its Python wrapper, and the theorem is evaluated on every real tile to "
+         "depth 4 for seeded boxes (any origin, width > 2pi, poles, seam) through generate_tiles_filtered. spec/ImageBounds.tla gives the exact sample sets of WcsSampler._image_bounds "
+         "(both ends of every refined interval, reaching the image edge; TLC refutes this for the single-sample variant that was in the tree); a recording WCS compares them with what the "
+         "code evaluates, and a directed witness search over image footprints checks that every tile holding a finite sampled pixel is accepted on its whole path. spec/Chunks.tla shows "
+         "the chunk grid partitions the map and that chunk boxes/samplers use exactly the chunk's pixels; filtered vs unfiltered layers and all-chunks vs whole-map sampling are compared "
+         "pixel by pixel; no filter call may change the tile's corners.",
+    note="Bounds: G=4 quick / G=8 thorough; tiles to depth 4; footprint monitor restricted to levels where a tile spans >= 64 image px, witness pixel >= 0.05 px inside, footprints with "
+         "(pixel size)*tan(lat) <= 0.02 and enclosed poles >= 20 px from edges (sampled bounds are inherently short by up to ~1 px around an enclosed pole); chunk pixels within 1e-6 cell "
+         "of a boundary excluded. Trusted: compiled _libtoasty (pyx not rebuildable here). Private helpers _latlon_tile_filter/_image_bounds/_chunk_bounds used for conformance (drift) only.",
+    technique="TLA+ function-table specs checked by TLC (BBoxFilter, ImageBounds, Chunks); TLC-emitted verdicts/sample sets/chunk grids replayed into the real code; monitors on real tiles and layers",
+    design_ref="DESIGN.md 4.10, 5/C07, 9")
